@@ -148,6 +148,7 @@ REG.define('in_list(xs, v)', 'exists(lambda k: 0 <= k < len(xs) and xs[k] == v)'
 
 REG.spec('agent/resource_manager/base.py:ResourceManager._init_from_scratch#blocked',
     fragment = 'if blocked_cores or blocked_gpus:',
+    fragment_marker = "node['cores'][idx] = rpc.DOWN",
     params   = dict(rm_info=RMInfoN, blocked_cores=IntL, blocked_gpus=IntL),
     requires = ['forall(lambda k: implies(0 <= k < len(blocked_cores), blocked_cores[k] >= 0))',
                 'forall(lambda k: implies(0 <= k < len(blocked_gpus), blocked_gpus[k] >= 0))'],
